@@ -657,17 +657,23 @@ def sym_int_parse(x, base=10):
 
 
 def sym_int_render(i):
-    """str(<symbolic int>): decimal digits, branching on sign and digit count."""
+    """str(<symbolic int>): decimal digits, branching on sign and digit count.  The digits are fresh variables defined by
+    |i| == sum(d_k * 10^k) (a total, unique decomposition), which keeps later reasoning linear."""
+    from .core import define, fresh_int
     c = int.__index__(i)
     t = i._t
     neg = branch(t < 0, c < 0)
     a = -t if neg else t
     ca = -c if neg else c
-    nd = len(str(ca))
+    text = str(ca)
+    nd = len(text)
     lo = 0 if nd == 1 else 10 ** (nd - 1)
-    branch(z3.And(a >= lo, a < 10**nd), True)
-    digs = [((a / (10**k)) % 10) + 48 for k in range(nd - 1, -1, -1)]
-    terms = ([z3.IntVal(45)] if neg else []) + digs
+    branch(z3.And(a >= lo, a < 10**nd), True, kind="case")
+    ds = [fresh_int("dig") for _ in range(nd)]  # most significant first
+    cons = [z3.And(d >= 0, d <= 9) for d in ds]
+    cons.append(a == z3.Sum([d * (10 ** (nd - 1 - k)) for k, d in enumerate(ds)]))
+    define(z3.And(cons))
+    terms = ([z3.IntVal(45)] if neg else []) + [d + 48 for d in ds]
     return mks(SStr, terms, str(c))
 
 
